@@ -144,6 +144,12 @@ impl SwiftField for Field25P {
 
         // Parse BIC (second line if present, otherwise might be concatenated)
         let bic = if lines.len() > 1 {
+            // Nothing may follow the BIC line
+            if lines.len() > 2 {
+                return Err(ParseError::InvalidFormat {
+                    message: "Field 25P has unexpected content after the BIC line".to_string(),
+                });
+            }
             parse_bic(lines[1])?
         } else {
             // Try to extract BIC from the end (last 8 or 11 characters)
